@@ -1,6 +1,46 @@
 /- Driver/C02.lean — line-protocol driver for the C02 check: the shared identity machine with the
-   configuration extracted into Generated/C02.lean (core: Model/C01Driver.lean). -/
+   configuration extracted into Generated/C02.lean (core: Model/C01Driver.lean), run through the fault layer of
+   Model/C02Fault.lean: one more kernel input line
+
+     {"op":"fault","pid":p,"on":bool}      reads of /proc/p/stat start / stop failing with a transient OSError
+
+   (further keys of that line — which errno, at open() or at read() — are the harness's business).  With no faulty PID
+   every line is answered exactly as Model/C01Driver.lean answers it.  A call that the transient error leaves is
+   answered {"kind":"exc","exc":"OSError"}; the SPEC of `is_running` then carries "may_raise": true — the answer may
+   be withheld while reads of the object's PID fail, but an answer that is given must be the one under "bool". -/
 import PsutilModel.Model.C01Driver
 import PsutilModel.Model.C02Gen
+open Lean Psutil Psutil.Proto Psutil.C01 Psutil.C01.Drv Psutil.C02
 
-def main : IO Unit := Psutil.C01.Drv.driverMain Psutil.C02.cfg
+def jOutF : OutF → Json
+  | .ok o => jOut o
+  | .osError => jObj [("kind", "exc"), ("exc", "OSError")]
+
+/-- what C02 promises about this call, from the ghost fields, the kernel table and the fault input only -/
+def specF (fs : FSt) : Ev → Json
+  | .c (.isRunning i) =>
+    match fs.st.ps.objs[i]? with
+    | some o =>
+      if fs.faulty.contains o.pid then
+        jObj [("bool", Json.bool (Spec.listedB fs.st.kern o)), ("may_raise", Json.bool true)]
+      else jObj [("bool", Json.bool (Spec.listedB fs.st.kern o))]
+    | none => jObj []
+  | ev => specOf fs.st ev
+
+def handleF (fs : FSt) (j : Json) : R (FSt × Json) := do
+  let op ← strF j "op"
+  if op == "reset" then
+    return (FSt.init (← natF j "btime"), ok (Json.str "reset"))
+  if op == "pairs" then
+    return (fs, pairs fs.st)
+  if op == "fault" then
+    let r := fs.step Psutil.C02.cfg statFault (.fault (← natF j "pid") (← boolF j "on"))
+    return (r.1, jObj [("model", jObj [("out", jOutF r.2), ("eff", jList jEff [])]), ("spec", jObj [])])
+  let ev ← parseEv j
+  let spec := specF fs ev
+  let r := fs.step Psutil.C02.cfg statFault (.ev ev)
+  let s' := r.1.st
+  let newEff := (s'.log.take (s'.log.length - fs.st.log.length)).reverse
+  return (r.1, jObj [("model", jObj [("out", jOutF r.2), ("eff", jList jEff newEff)]), ("spec", spec)])
+
+def main : IO Unit := Proto.run (FSt.init 1) (total handleF)
